@@ -251,6 +251,10 @@ def index_kind(prog, lk, ci, func, idx, depth=0):
         return None, f'local `{idx.id}`'
     if isinstance(idx, ast.Call) and isinstance(idx.func, ast.Attribute) and norm(idx.func.value) == 'self':
         g = prog.resolve_method(ci, idx.func.attr)
+        if g is None and idx.func.attr in lk.attrs:
+            # the value->position lookup applied in place: its output holds the sentinel -1 for every undeclared value and nothing
+            # between the lookup and the use refuses it (-1 as a row index is the last class)
+            return 'MaybeClassIndex', f'`{norm(idx)[:50]}` is a lookup output that may contain the sentinel -1, used without a check on this batch'
         if g is None:
             return None, f'unresolved self.{idx.func.attr}'
         amap = kernels.call_arg_map(g, idx, skip_self=True)
